@@ -72,8 +72,9 @@ def main(tier="quick", only=None):
     missed = [r for r in results if r["status"] == "MISSED"]
     out = {"results": results, "caught": sum(r["status"] == "caught" for r in results), "missed": len(missed),
            "skipped": sum(r["status"].startswith("skipped") for r in results)}
-    with open(os.path.join(harness.VERIF, "selfcheck", "selftest.json"), "w") as fh:
-        json.dump(out, fh, indent=1)
+    if not only:      # a filtered run does not overwrite the summary of the full run
+        with open(os.path.join(harness.VERIF, "selfcheck", "selftest.json"), "w") as fh:
+            json.dump(out, fh, indent=1)
     print(f"selftest: {out['caught']} caught, {out['missed']} missed, {out['skipped']} skipped of {len(results)}")
     return 1 if missed else 0
 
